@@ -116,6 +116,15 @@ def _enclosing_lists(ctx, rep, cl):
                     continue  # changed by a nested loop, which is checked on its own
                 okp = post in (("binop", "+", pre, lv), ("binop", "+", lv, pre))
                 rep.ob(cl + ".enclosing-append-only", "%s:%s" % (f.name, role), okp and li.iter[0] == "global", "%s grows by %s; only elements of the constant list may be moved into it" % (role, show(post)), W(f, li.node), key="%s.enclosing-append-only|%s" % (cl, role))
+    # vacuity guard: the clauses above are about the two strip loops (one over the head texts, one over the tail texts); without them nothing was decided
+    roles = set()
+    for uid, li in fp.loops.items():
+        if li.iter is not None and li.iter[0] == "global" and li.iter[2].endswith("HEAD_TEXT"):
+            roles.add("head")
+        if li.iter is not None and li.iter[0] == "global" and li.iter[2].endswith("TAIL_TEXT"):
+            roles.add("tail")
+    rep.ob(cl + ".enclosing-strip-loops", f.name, roles == {"head", "tail"}, "strip loops over the constant head / tail text lists found: %s; expected both (another way of stripping is not covered by the strip / guard / append-only clauses)" % sorted(roles), W(f),
+           key=cl + ".enclosing-strip-loops|_extract_enclosing_text")
     # returns (head, val, tail) or the recursive call on the stripped value
     for path in fp.paths:
         r = path.returned()
